@@ -134,6 +134,15 @@ func PropC06(c *vs.Case, f Factory, kind string) error {
 	if t.Panic != "" {
 		return vs.Violf("C06/panic", "panic: %s", t.Panic)
 	}
+	// judge against what the hook really answered in this sync (it may echo parts of what it observed)
+	if fromHook, ok := env.DesiredFromTrace(t); ok {
+		desired = map[string]map[string]any{}
+		desiredList = nil
+		for _, n := range fromHook {
+			desired[ObjID(n)] = n
+			desiredList = append(desiredList, n)
+		}
+	}
 	err = propC06Judge(c, env, scn, t, pre, desired, desiredList)
 	if v, ok := err.(*vs.Violation); ok {
 		v.Msg += "\ntrace of the sync under test:\n  " + strings.Join(t.Summary(), "\n  ")
